@@ -168,7 +168,23 @@ Clauses(S, P, hasPrev, TauSet) ==   \* S = this solve's observation, P = previou
                  /\ \A r \in 1..Len(lmis) : \A e \in 1..Len(Dual(lmis[r])) : \A key \in 1..NK :
                        TermFits(Dual(lmis[r])[e], vecs[lmis[r]][e][key][1], vecs[lmis[r]][e][key][2])
       doCert == solved /\ haveDuals /\ inRange /\ termsOK
-      c01h == IF solved /\ haveDuals /\ ~(inRange /\ termsOK) THEN {<<"C01", "multiplier-too-large-for-a-certificate-of-this-model", 0>>} ELSE {}
+      \* When some product multiplier x coefficient does not fit (termsOK fails) the identity is not computed.  One case is
+      \* still decided soundly: a monomial in which exactly ONE term does not fit (it is > 60 in absolute value) while
+      \* the absolute values of all the other terms add up to less than 59 cannot sum to zero.  (Two or more large
+      \* terms may cancel - redundant equalities, e.g. the mirrored entries of an LMI, carry arbitrary opposite
+      \* multipliers - and are left undecided.)
+      BigRows(key) == {r \in 1..Len(rows) : ~TermFits(Dual(rows[r])[1], vecs[rows[r]][1][key][1], vecs[rows[r]][1][key][2])}
+      BigLmis(key) == {re \in UNION {{<<r, e>> : e \in 1..Len(Dual(lmis[r]))} : r \in 1..Len(lmis)} :
+                         ~TermFits(Dual(lmis[re[1]])[re[2]], vecs[lmis[re[1]]][re[2]][key][1], vecs[lmis[re[1]]][re[2]][key][2])}
+      SmallAbs(key) == SumOver(LAMBDA r : IF r \in BigRows(key) THEN 0
+                                          ELSE Abs(MulRat(Dual(rows[r])[1], vecs[rows[r]][1][key][1], vecs[rows[r]][1][key][2])), 1, Len(rows))
+                       + SumOver(LAMBDA r : SumOver(LAMBDA e : IF <<r, e>> \in BigLmis(key) THEN 0
+                                          ELSE Abs(MulRat(Dual(lmis[r])[e], vecs[lmis[r]][e][key][1], vecs[lmis[r]][e][key][2])),
+                                                    1, Len(Dual(lmis[r]))), 1, Len(lmis))
+                       + Abs(ResTerm(key)) + Abs(ObjTerm(key))
+      lonelyBig == {key \in 1..(NK - 1) : Cardinality(BigRows(key)) + Cardinality(BigLmis(key)) = 1 /\ SmallAbs(key) < 59000000}
+      c01h == IF solved /\ haveDuals /\ ~termsOK /\ (\A k \in 1..Len(S.resid) : InRange(S.resid[k])) /\ lonelyBig # {}
+              THEN {<<"C01", "identity-cannot-close:one-term-exceeds-60-and-all-others-together-stay-below", CHOOSE k \in lonelyBig : TRUE>>} ELSE {}
       c01a == IF ~solved THEN {} ELSE IF ~haveDuals THEN {<<"C01", "multiplier-missing", 0>>} ELSE {}
       c01b == IF doCert /\ badKeys # {} THEN {<<"C01", IF nonSymLmi THEN "identity-with-lmi-not-symmetric-as-written:" \o S.lmishape ELSE "identity",
                                                 CHOOSE k \in badKeys : \A j \in badKeys : KeyErr(j) <= KeyErr(k)>>} ELSE {}
